@@ -15,8 +15,10 @@ open Prom.Wal
 def StepLocal (ps : Nat) (crc : Crc) (st : RState) (s : Bytes) : Prop :=
   match rstep ps crc st s with
   | .done _ => True
-  | .cont st' rest => ∃ c, c ≠ [] ∧ s = c ++ rest ∧ ∀ X, rstep ps crc st (c ++ X) = .cont st' X
-  | .emit rec st' rest => ∃ c, c ≠ [] ∧ s = c ++ rest ∧ ∀ X, rstep ps crc st (c ++ X) = .emit rec st' X
+  | .cont st' rest => ∃ c, c ≠ [] ∧ s = c ++ rest ∧ st'.total = st.total + c.length ∧
+      ∀ X, rstep ps crc st (c ++ X) = .cont st' X
+  | .emit rec st' rest => ∃ c, c ≠ [] ∧ s = c ++ rest ∧ st'.total = st.total + c.length ∧
+      ∀ X, rstep ps crc st (c ++ X) = .emit rec st' X
 
 theorem take_append_of_le {α} (l X : List α) (k : Nat) (h : k ≤ l.length) :
     (l.take k ++ X).take k = l.take k := by
@@ -52,7 +54,7 @@ theorem rstep_local (ps : Nat) (crc : Crc) (st : RState) (s : Bytes) : StepLocal
             .cont { st with total := st.total + 1, typ := h0 &&& recTypeMask } Y := by
           intro Y; simp [rstep, hpt, hk]
         rw [e s1]
-        exact ⟨[h0], by simp, by simp, fun X => by simpa using e X⟩
+        exact ⟨[h0], by simp, by simp, by simp, fun X => by simpa using e X⟩
       · by_cases h0l : s1.length = 0
         · simp [rstep, hpt, hk, h0l]
         · by_cases hlt : s1.length < ps - (st.total + 1) % ps
@@ -80,7 +82,7 @@ theorem rstep_local (ps : Nat) (crc : Crc) (st : RState) (s : Bytes) : StepLocal
               rw [← hs] at e1
               rw [e1]
               exact ⟨h0 :: s1.take (ps - (st.total + 1) % ps), by simp, by simpa using hs,
-                fun X => by simpa using e X⟩
+                by simp [List.length_take]; omega, fun X => by simpa using e X⟩
     · -- data fragment
       by_cases h0l : s1.length = 0
       · simp [rstep, hpt, h0l]
@@ -136,13 +138,13 @@ theorem rstep_local (ps : Nat) (crc : Crc) (st : RState) (s : Bytes) : StepLocal
                       · simp [hfin, hcomp]
                       · simp only [hfin, hcomp, if_true, if_false]
                         refine ⟨h0 :: l1 :: l0 :: c3 :: c2 :: c1 :: c0 :: s2.take (rd16 l1 l0), by simp,
-                          by simpa using hs, fun X => ?_⟩
+                          by simpa using hs, by simp [List.length_take]; omega, fun X => ?_⟩
                         have := key X
                         simp only [hv, hfin, hcomp, if_true, if_false] at this
                         simpa using this
                     · simp only [hfin, if_false]
                       refine ⟨h0 :: l1 :: l0 :: c3 :: c2 :: c1 :: c0 :: s2.take (rd16 l1 l0), by simp,
-                        by simpa using hs, fun X => ?_⟩
+                        by simpa using hs, by simp [List.length_take]; omega, fun X => ?_⟩
                       have := key X
                       simp only [hv, hfin, if_false] at this
                       simpa using this
@@ -174,7 +176,7 @@ theorem rloop_take_prefix (ps : Nat) (crc : Crc) :
     | done status => rw [rloop_done hr]; exact List.nil_prefix
     | cont st' rest =>
       rw [hr] at hloc
-      obtain ⟨c, hc, hcs, hX⟩ := hloc
+      obtain ⟨c, hc, hcs, htot, hX⟩ := hloc
       have hclen : 0 < c.length := List.length_pos_iff.mpr hc
       have hfull : rstep ps crc st s = .cont st' (rest ++ s.drop n) := by
         have := hX (rest ++ s.drop n)
@@ -188,7 +190,7 @@ theorem rloop_take_prefix (ps : Nat) (crc : Crc) :
       rwa [List.take_left' rfl] at this
     | emit rec st' rest =>
       rw [hr] at hloc
-      obtain ⟨c, hc, hcs, hX⟩ := hloc
+      obtain ⟨c, hc, hcs, htot, hX⟩ := hloc
       have hclen : 0 < c.length := List.length_pos_iff.mpr hc
       have hfull : rstep ps crc st s = .emit rec st' (rest ++ s.drop n) := by
         have := hX (rest ++ s.drop n)
@@ -229,7 +231,7 @@ theorem rloop_zeros_nil (ps : Nat) (crc : Crc) : ∀ (k : Nat) (st : RState), (r
         have hloc := rstep_local ps crc st (zeros (k + 1))
         unfold StepLocal at hloc
         rw [hr] at hloc
-        obtain ⟨c, hc, hcs, _⟩ := hloc
+        obtain ⟨c, hc, hcs, _, _⟩ := hloc
         have hclen : 0 < c.length := List.length_pos_iff.mpr hc
         have hlen : (zeros (k + 1)).length = c.length + rest.length := by rw [hcs]; simp
         have hrest : rest = zeros rest.length := by
@@ -261,7 +263,7 @@ theorem rloop_take_pad (ps : Nat) (crc : Crc) :
     | done status => exact ⟨[], [], by rw [rloop_done hr]; rfl, List.nil_prefix, by simp⟩
     | cont st' rest =>
       rw [hr] at hloc
-      obtain ⟨c, hc, hcs, hX⟩ := hloc
+      obtain ⟨c, hc, hcs, htot, hX⟩ := hloc
       have hclen : 0 < c.length := List.length_pos_iff.mpr hc
       have hl1 : rest.length < (s.take n ++ zeros k).length := by rw [hcs]; simp; omega
       rw [rloop_of_cont hr hl1]
@@ -293,7 +295,7 @@ theorem rloop_take_pad (ps : Nat) (crc : Crc) :
         exact ⟨[], [], by rw [hrest, rloop_zeros_nil]; rfl, List.nil_prefix, by simp⟩
     | emit rec st' rest =>
       rw [hr] at hloc
-      obtain ⟨c, hc, hcs, hX⟩ := hloc
+      obtain ⟨c, hc, hcs, htot, hX⟩ := hloc
       have hclen : 0 < c.length := List.length_pos_iff.mpr hc
       have hl1 : rest.length < (s.take n ++ zeros k).length := by rw [hcs]; simp; omega
       rw [rloop_of_emit hr hl1]
@@ -350,6 +352,135 @@ theorem rloopE_fst (ps : Nat) (crc : Crc) :
         have := ih rest (by omega) st'
         simp [this.1, this.2]
       · simp [hl]
+
+theorem rloopE_done {ps : Nat} {crc : Crc} {st : RState} {s : Bytes} {status : Status}
+    (h : rstep ps crc st s = .done status) : rloopE ps crc st s = ([], status) := by
+  rw [rloopE]; simp [h]
+
+theorem rloopE_of_cont {ps : Nat} {crc : Crc} {st st' : RState} {s rest : Bytes}
+    (h : rstep ps crc st s = .cont st' rest) (hl : rest.length < s.length) :
+    rloopE ps crc st s = rloopE ps crc st' rest := by
+  rw [rloopE]; simp [h, hl]
+
+theorem rloopE_of_emit {ps : Nat} {crc : Crc} {st st' : RState} {s rest rec : Bytes}
+    (h : rstep ps crc st s = .emit rec st' rest) (hl : rest.length < s.length) :
+    rloopE ps crc st s = ((rec, st'.total) :: (rloopE ps crc st' rest).1, (rloopE ps crc st' rest).2) := by
+  rw [rloopE]; simp [h, hl]
+
+/-- `Reader.Offset()` after a record never exceeds the bytes available. -/
+theorem rloopE_off_le (ps : Nat) (crc : Crc) :
+    ∀ (m : Nat) (s : Bytes), s.length ≤ m → ∀ (st : RState),
+      ∀ p ∈ (rloopE ps crc st s).1, p.2 ≤ st.total + s.length := by
+  intro m
+  induction m with
+  | zero =>
+    intro s hs st p hp
+    have : s = [] := List.eq_nil_of_length_eq_zero (by omega)
+    subst this
+    rw [rloopE] at hp; simp [rstep] at hp
+  | succ m ih =>
+    intro s hs st p hp
+    have hloc := rstep_local ps crc st s
+    unfold StepLocal at hloc
+    cases hr : rstep ps crc st s with
+    | done status => rw [rloopE_done hr] at hp; simp at hp
+    | cont st' rest =>
+      rw [hr] at hloc
+      obtain ⟨c, hc, hcs, htot, _⟩ := hloc
+      have hclen : 0 < c.length := List.length_pos_iff.mpr hc
+      have hlen : s.length = c.length + rest.length := by rw [hcs]; simp
+      rw [rloopE_of_cont hr (by omega)] at hp
+      have := ih rest (by omega) st' p hp
+      omega
+    | emit rec st' rest =>
+      rw [hr] at hloc
+      obtain ⟨c, hc, hcs, htot, _⟩ := hloc
+      have hclen : 0 < c.length := List.length_pos_iff.mpr hc
+      have hlen : s.length = c.length + rest.length := by rw [hcs]; simp
+      rw [rloopE_of_emit hr (by omega)] at hp
+      simp only [List.mem_cons] at hp
+      rcases hp with hp | hp
+      · subst hp; simp only; omega
+      · have := ih rest (by omega) st' p hp
+        omega
+
+/-- Truncation, with offsets: the records (and their end offsets) read from a prefix of the stream are a
+    prefix of those read from the whole stream. -/
+theorem rloopE_take_prefix (ps : Nat) (crc : Crc) :
+    ∀ (m : Nat) (s : Bytes), s.length ≤ m → ∀ (st : RState) (n : Nat),
+      (rloopE ps crc st (s.take n)).1 <+: (rloopE ps crc st s).1 := by
+  intro m
+  induction m with
+  | zero =>
+    intro s hs st n
+    have : s = [] := List.eq_nil_of_length_eq_zero (by omega)
+    subst this; simp
+  | succ m ih =>
+    intro s hs st n
+    have hloc := rstep_local ps crc st (s.take n)
+    unfold StepLocal at hloc
+    have hsplit : s = s.take n ++ s.drop n := (List.take_append_drop n s).symm
+    cases hr : rstep ps crc st (s.take n) with
+    | done status => rw [rloopE_done hr]; exact List.nil_prefix
+    | cont st' rest =>
+      rw [hr] at hloc
+      obtain ⟨c, hc, hcs, _, hX⟩ := hloc
+      have hclen : 0 < c.length := List.length_pos_iff.mpr hc
+      have hfull : rstep ps crc st s = .cont st' (rest ++ s.drop n) := by
+        have := hX (rest ++ s.drop n)
+        rwa [← List.append_assoc, ← hcs, ← hsplit] at this
+      have hl1 : rest.length < (s.take n).length := by rw [hcs]; simp; omega
+      have hl2 : (rest ++ s.drop n).length < s.length := by
+        have : s.length = (s.take n).length + (s.drop n).length := by rw [← List.length_append, ← hsplit]
+        rw [List.length_append]; omega
+      rw [rloopE_of_cont hr hl1, rloopE_of_cont hfull hl2]
+      have := ih (rest ++ s.drop n) (by omega) st' rest.length
+      rwa [List.take_left' rfl] at this
+    | emit rec st' rest =>
+      rw [hr] at hloc
+      obtain ⟨c, hc, hcs, _, hX⟩ := hloc
+      have hclen : 0 < c.length := List.length_pos_iff.mpr hc
+      have hfull : rstep ps crc st s = .emit rec st' (rest ++ s.drop n) := by
+        have := hX (rest ++ s.drop n)
+        rwa [← List.append_assoc, ← hcs, ← hsplit] at this
+      have hl1 : rest.length < (s.take n).length := by rw [hcs]; simp; omega
+      have hl2 : (rest ++ s.drop n).length < s.length := by
+        have : s.length = (s.take n).length + (s.drop n).length := by rw [← List.length_append, ← hsplit]
+        rw [List.length_append]; omega
+      rw [rloopE_of_emit hr hl1, rloopE_of_emit hfull hl2]
+      have := ih (rest ++ s.drop n) (by omega) st' rest.length
+      rw [List.take_left' rfl] at this
+      exact List.cons_prefix_cons.mpr ⟨rfl, this⟩
+
+theorem takeWhile_append_all {α} (p : α → Bool) : ∀ (l1 l2 : List α), (∀ a ∈ l1, p a = true) →
+    (l1 ++ l2).takeWhile p = l1 ++ l2.takeWhile p := by
+  intro l1
+  induction l1 with
+  | nil => intro l2 _; rfl
+  | cons a l1 ih =>
+    intro l2 h
+    have ha := h a (List.mem_cons_self ..)
+    simp only [List.cons_append, List.takeWhile_cons, ha, if_true]
+    rw [ih l2 (fun b hb => h b (List.mem_cons_of_mem _ hb))]
+
+/-- **Repair keeps everything that lies before the corruption**: if the file starts with bytes `good` that
+    read (on their own) as the records `out`, and the corruption offset is beyond them, all of `out` is
+    re-inserted, in order, before anything else. -/
+theorem keptRecs_keeps_good (ps : Nat) (crc : Crc) (good junk : Bytes) (out : List Bytes) (off : Nat)
+    (hgood : (rloop ps crc RState.init good).1 = out) (hoff : good.length < off) :
+    out <+: keptRecs ps crc (good ++ junk) off := by
+  have hpre := rloopE_take_prefix ps crc (good ++ junk).length (good ++ junk) (Nat.le_refl _) RState.init good.length
+  rw [List.take_left' rfl] at hpre
+  obtain ⟨t, ht⟩ := hpre
+  have hall : ∀ a ∈ (rloopE ps crc RState.init good).1, decide (a.2 < off) = true := by
+    intro a ha
+    have := rloopE_off_le ps crc good.length good (Nat.le_refl _) RState.init a ha
+    simp only [RState.init] at this
+    simp; omega
+  unfold keptRecs
+  rw [← ht, takeWhile_append_all _ _ _ hall, List.map_append,
+    (rloopE_fst ps crc good.length good (Nat.le_refl _) RState.init).1, hgood]
+  exact List.prefix_append _ _
 
 /-- The records `Repair` keeps are a prefix of what the plain reader returns on the damaged file. -/
 theorem keptRecs_prefix (ps : Nat) (crc : Crc) (seg : Bytes) (off : Nat) :
